@@ -71,3 +71,69 @@ def xml_events(data, limit=200000):
 def lat1(s):
     """harness strings are latin-1 views of bytes"""
     return s.encode("latin-1") if s is not None else None
+
+
+# ---- markup nesting events --------------------------------------------------------------------------------------
+import html.parser as _hp, re as _re
+VOID = {"br", "hr", "img", "meta", "col", "link", "input", "area", "base", "embed", "source", "track", "wbr"}
+
+
+class _Nest(_hp.HTMLParser):
+    def __init__(self):
+        super().__init__(convert_charrefs=True); self.ev = []; self.text = []
+
+    def handle_starttag(self, tag, attrs):
+        if tag not in VOID: self.ev.append(["o", tag])
+
+    def handle_startendtag(self, tag, attrs):
+        pass
+
+    def handle_endtag(self, tag):
+        if tag not in VOID: self.ev.append(["c", tag])
+
+    def handle_data(self, d):
+        self.text.append(d)
+
+
+def html_nesting(data):
+    p = _Nest()
+    try:
+        p.feed(data.decode("utf-8", errors="replace")); p.close()
+        return True, p.ev, "".join(p.text)
+    except Exception as ex:
+        return False, [], ""
+
+
+def xml_nesting(data):
+    ok, evs, err = xml_events(data)
+    return ok, [["o", e[1]] if e[0] == "open" else ["c", e[1]] for e in evs if e[0] in ("open", "close")], "".join(e[1] for e in evs if e[0] == "text")
+
+
+_TEX = _re.compile(r"\\begin\{([^}]*)\}|\\end\{([^}]*)\}|\\verb(.)|\\.|[{}]|%[^\n]*", _re.S)
+
+
+def latex_nesting(data):
+    """\\begin/\\end environments and brace groups; escaped braces and comments skipped; verbatim-like environments opaque"""
+    s = data.decode("utf-8", errors="replace"); ev = []; i = 0; verb = None
+    while i < len(s):
+        m = _TEX.search(s, i)
+        if not m: break
+        tok = m.group(0); i = m.end()
+        if verb:
+            if m.group(2) == verb: ev.append(["c", verb]); verb = None
+            continue
+        if m.group(1) is not None:
+            ev.append(["o", m.group(1)])
+            if m.group(1) in ("verbatim", "lstlisting", "Verbatim", "adjustwidth"): verb = m.group(1) if m.group(1) != "adjustwidth" else None
+        elif m.group(2) is not None: ev.append(["c", m.group(2)])
+        elif m.group(3) is not None:
+            j = s.find(m.group(3), i); i = (j + 1) if j >= 0 else len(s)
+        elif tok == "{": ev.append(["o", "{"])
+        elif tok == "}": ev.append(["c", "{"])
+    return True, ev, s
+
+
+def skeleton(data):
+    ok, evs, err = xml_events(data)
+    if not ok: return False, "", err
+    return True, sha(("/".join((e[0][0] + e[1]) for e in evs if e[0] in ("open", "close"))).encode()), ""
